@@ -31,17 +31,25 @@ class Job:
         self.send_failed = False
 
 
-def _submit(p, w, name, kind, bad):
+class Propagated(Exception):
+    """raised by a result callback and listed in callbacks_propagate: it leaves the result handler's turn (user code failing
+    after the outcome exists: the job is resolved all the same)"""
+
+
+def _submit(p, w, name, kind, bad, cb_raises=False):
     """bad: index of the part whose task raises (-1: none)"""
     if kind == 'apply':
         job = Job(name, kind, [name])
 
         def cb(v):
             job.cb += 1
+            if cb_raises:
+                raise Propagated()
 
         def ecb(v):
             job.ecb += 1
-        h = p.apply_async(W.val_or_raise, (name, bad == 0), callback=cb, error_callback=ecb)
+        h = p.apply_async(W.val_or_raise, (name, bad == 0), callback=cb, error_callback=ecb,
+                          **({'callbacks_propagate': (Propagated,)} if cb_raises else {}))
     else:
         job = Job(name, kind, [name + '0', name + '1'])
         items = [(name + '0', bad == 0), (name + '1', bad == 1)]
@@ -182,10 +190,11 @@ def _machine(second, bad, ev, mode, want):
         fail_at = nd.draw(0, 2)
     else:
         badA = 0 if bad == 1 else -1
-        badB = (bad - 2) if bad >= 2 else -1
+        badB = (bad - 2) if 2 <= bad <= 3 else -1
         if second == 'apply' and badB == 1:
             raise Prune()
-    A = _submit(p, w, 'A', 'apply', badA)
+    cb_raises = bad == 4          # A's success callback raises an exception the submitter asked to have propagated
+    A = _submit(p, w, 'A', 'apply', badA, cb_raises)
     B = _submit(p, w, 'B', second, badB)
     A.bad_parts = [0] if badA == 0 else []
     B.bad_parts = [badB] if badB >= 0 else []
@@ -221,7 +230,11 @@ def _machine(second, bad, ev, mode, want):
         elif e == 2:
             if p._outqueue.q and p._outqueue.q[0][0] == bp.ACK and p._outqueue.q[0][1][3] not in [x.pid for x in p._pool]:
                 hist['ack_after_reap'].add(_name_of(jobs, p._outqueue.q[0][1][0]))
-            w.rh()
+            try:
+                w.rh()
+            except Propagated:
+                if want == 'cbraise':
+                    return False
         elif e == 3:
             # a late or duplicate copy of some worker's last message
             k = nd.draw(0, 1)
@@ -233,7 +246,7 @@ def _machine(second, bad, ev, mode, want):
             if want == 'dup':
                 return False
         elif e == 4:
-            if mode not in ('fault',):
+            if mode not in ('fault', 'term'):
                 raise Prune()
             k = nd.draw(0, 1)
             if k >= len(p._pool):
@@ -277,14 +290,22 @@ def _machine(second, bad, ev, mode, want):
     while p._outqueue.q:
         if p._outqueue.q[0][0] == bp.ACK and p._outqueue.q[0][1][3] not in [x.pid for x in p._pool]:
             hist['ack_after_reap'].add(_name_of(jobs, p._outqueue.q[0][1][0]))
-        w.rh()
+        try:
+            w.rh()
+        except Propagated:
+            pass
     for _ in range(3):
         for x in list(p._pool):
             if x.exitcode is None and x.state == 'idle' and p._inqueue.q:
                 w.w_take(x)
             if x.exitcode is None and x.state == 'busy':
                 w.w_done(x)
-        w.drain_results()
+        for _t in range(3):
+            try:
+                w.drain_results()
+                break
+            except Propagated:
+                pass
         try:
             w.tick()
             w.adv(LWT + 1)
@@ -319,7 +340,7 @@ def _machine(second, bad, ev, mode, want):
 
 
 def _pre(bad, ev):
-    return 0 <= bad <= 3 and len(ev) == 2 * K + 1
+    return 0 <= bad <= 4 and len(ev) == 2 * K + 1
 
 
 def _first(ev, firsts, sub):
@@ -341,15 +362,31 @@ def _go(bad, ev, mode, want):
 
 def h_dispatch(bad: int, ev: List[int]) -> bool:
     """
-    pre: _pre(bad, ev) and _first(ev, (0, 1), 2)
+    pre: _pre(bad, ev) and bad <= 3 and _first(ev, (0, 1), 2)
     post: _
     """
     return _go(bad, ev, 'dispatch', None)
 
 
+def h_cbraise(ev: List[int]) -> bool:
+    """
+    pre: _pre(4, ev) and _first(ev, (0, 1), 1)
+    post: _
+    """
+    return _go(4, ev, 'dispatch', None)
+
+
+def h_cbraise_twin(ev: List[int]) -> bool:
+    """
+    pre: _pre(4, ev) and _first(ev, (0, 1), 1)
+    post: _
+    """
+    return _go(4, ev, 'dispatch', 'cbraise')
+
+
 def h_dispatch_twin(bad: int, ev: List[int]) -> bool:
     """
-    pre: _pre(bad, ev) and _first(ev, (0, 1), 2)
+    pre: _pre(bad, ev) and bad <= 3 and _first(ev, (0, 1), 2)
     post: _
     """
     return _go(bad, ev, 'dispatch', 'dup')
